@@ -434,6 +434,10 @@ func child(batch int, seed int64, tier, outDir string) {
 			{"plugin-name-empty", false, []signature.Attribute{{Key: lib.HdrPlugin, Critical: true, Value: ""}}},
 			{"plugin-name-not-a-string", false, []signature.Attribute{{Key: lib.HdrPlugin, Critical: true, Value: 7}}},
 			{"min-version-not-a-string", false, append([]signature.Attribute{{Key: lib.HdrPluginMinVer, Critical: true, Value: []any{"1.0.0"}}}, plugHdr...)},
+			{"plugin-header-non-critical", false, []signature.Attribute{{Key: lib.HdrPlugin, Value: "plug"}}},
+			{"min-version-blank", false, append([]signature.Attribute{{Key: lib.HdrPluginMinVer, Critical: true, Value: " "}}, plugHdr...)},
+			{"min-version-not-semver", false, append([]signature.Attribute{{Key: lib.HdrPluginMinVer, Critical: true, Value: "v1"}}, plugHdr...)},
+			{"min-version-non-critical", false, append([]signature.Attribute{{Key: lib.HdrPluginMinVer, Value: "1.0.0"}}, plugHdr...)},
 			{"min-version-without-plugin", false, []signature.Attribute{{Key: lib.HdrPluginMinVer, Critical: true, Value: "1.0.0"}}},
 			{"many-attributes", false, func() []signature.Attribute {
 				out := append([]signature.Attribute{}, plugHdr...)
